@@ -26,8 +26,8 @@ RULE = ("Hypothesis-generated production histories of scalar features; a case is
         "to a file whose stored summaries were stripped; distinct = sha1 of the "
         "canonical JSON spec")
 BUDGET = {"quick": 1600, "thorough": 40000}
-ESSENTIAL = ["multi-append+nan", "view:child", "view:basin", "op:join",
-             "stripped+tool"]
+ESSENTIAL = ["multi-append+nan", "view:child", "view:basin", "view:dictchild",
+             "op:join", "stripped+tool", "append-after-strip"]
 ASSUMPTIONS = [
     "version shim: dclab._version pre-seeded with 0.62.7 so that files written "
     "by the untagged build can be re-opened",
@@ -71,6 +71,8 @@ def st_file(draw, idx):
         "replace_vals": draw(st.lists(st.one_of(st_float(0.2), st.integers(0, 1000)),
                                       min_size=1, max_size=5)),
         "strip": draw(st.booleans()),
+        # events appended (one more writer session) after the summaries were stripped
+        "append_after_strip": draw(st.sampled_from([0, 0, 1, 3])),
     }
 
 
@@ -91,7 +93,9 @@ def st_spec(draw):
         "chunk": draw(st.sampled_from([None, 100])),
         "files": files,
         "ops": draw(st.lists(st.sampled_from(OPS), max_size=3)),
-        "view": draw(st.sampled_from(["file", "file", "child", "basin", "mapped"])),
+        "view": draw(st.sampled_from(["file", "file", "child", "child", "dictchild",
+                                      "basin", "mapped"])),
+        "allsel": draw(st.sampled_from([False, False, True])),
         "mask": draw(st.lists(st.booleans(), min_size=1, max_size=40)),
         "mask2": draw(st.lists(st.booleans(), min_size=1, max_size=40)),
     }
@@ -135,6 +139,17 @@ def _write_file(path, fs, idx):
             for nm in h5["events"]:
                 for a in ("min", "max", "mean"):
                     h5["events"][nm].attrs.pop(a, None)
+        k = fs.get("append_after_strip", 0)
+        if k:
+            with RTDCWriter(path, mode="append") as hw:
+                for nm in sorted(fs["feats"]):
+                    base = _arr(nm, fs["feats"][nm]["vals"])
+                    extra = base[:k] if len(base) >= k else np.resize(base, k)
+                    if nm not in INT_FEATS:
+                        extra = np.where(np.isnan(extra), 1.5, extra) * 3 + 11
+                    else:
+                        extra = extra + 5
+                    hw.store_feature(nm, extra)
 
 
 def _mask(bits, n):
@@ -198,6 +213,9 @@ def _run(spec, rec, d):
             else:
                 hist.setdefault(nm, "plain")
     stripped = any(fs["strip"] for fs in files)
+    if any(fs["strip"] and fs.get("append_after_strip") for fs in files):
+        rec.cls("append-after-strip")
+        rec.nontrivial()
     cur = paths[0]
     tool = False
     if len(paths) > 1:
@@ -240,7 +258,23 @@ def _run(spec, rec, d):
         # always check the file view
         for nm in feats:
             _check_obj(rec, ds[nm], "file", h(nm))
+        if view == "dictchild":
+            # in-memory parent: its feature objects are plain ndarrays
+            dd = dclab.new_dataset({nm: np.array(ds[nm][:]) for nm in feats})
+            m1 = np.ones(n, dtype=bool) if spec.get("allsel") else _mask(spec["mask"], n)
+            dd.filter.manual[:] = m1
+            dd.apply_filter()
+            ch = dclab.new_dataset(dd)
+            for nm in feats:
+                _check_obj(rec, ch[nm], "dictchild", h(nm))
+            gc_ = dclab.new_dataset(ch)
+            for nm in feats:
+                _check_obj(rec, gc_[nm], "dictgrandchild", h(nm))
         if view == "child":
+            if spec.get("allsel"):
+                ch0 = dclab.new_dataset(ds)
+                for nm in feats:
+                    _check_obj(rec, ch0[nm], "child-all-selected", h(nm))
             ds.filter.manual[:] = _mask(spec["mask"], n)
             ds.apply_filter()
             ch = dclab.new_dataset(ds)
